@@ -219,8 +219,15 @@ pub fn c05_encrypt(ctx: &Ctx, out: &mut RunOut) -> Result<(), Violation> {
         if let Some(n) = name {
             parms.push((b"Name".to_vec(), MObj::Name(n)));
         }
-        let filter = if ctx.chance(W, 1, 2, "crypt-array") { MObj::Array(vec![MObj::Name(b"Crypt".to_vec())]) } else { MObj::Name(b"Crypt".to_vec()) };
-        let d = vec![(b"Filter".to_vec(), filter), (b"DecodeParms".to_vec(), MObj::Dict(parms)), (b"Length".to_vec(), MObj::Int(body.len() as i64))];
+        let array_form = ctx.chance(W, 1, 2, "crypt-array");
+        let filter = if array_form { MObj::Array(vec![MObj::Name(b"Crypt".to_vec())]) } else { MObj::Name(b"Crypt".to_vec()) };
+        // DecodeParms may be an array parallel to Filter. lopdf only honours the dictionary form
+        // for the Crypt override (array form = no override, the default stream filter applies on
+        // both sides), so the effective filter of that stream is the default one.
+        let parms_array = array_form && ctx.chance(W, 1, 2, "parms-array");
+        let parms_obj = if parms_array { MObj::Array(vec![MObj::Dict(parms)]) } else { MObj::Dict(parms) };
+        let kind = if parms_array { setup.stm_kind } else { kind };
+        let d = vec![(b"Filter".to_vec(), filter), (b"DecodeParms".to_vec(), parms_obj), (b"Length".to_vec(), MObj::Int(body.len() as i64))];
         m.objects.insert((next_id, 0), MObj::Stream(d, body));
         special.push(((next_id, 0), Some(kind)));
         next_id += 1;
